@@ -2,10 +2,10 @@ ID = "C07"
 LEVEL = "model_checking"
 MIRSYM = "C07"
 BOUNDS = ("all (max_request_body_size, max_response_body_size) in u32 x u32 at every assembly route (Server/TowerService WS+HTTP arms, low-level ws::connect, "
-          "http::call_with_service_builder, http::call_with_service, read_body); every resume point of each coroutine body; loops unrolled 2x; the WebSocket oversize arm for every receive outcome and soketto error kind; the limit through every ServerConfigBuilder setter and server builder")
+          "http::call_with_service_builder, http::call_with_service, read_body); every resume point of each coroutine body; loops unrolled 2x; the WebSocket oversize arm for every receive outcome and soketto error kind; the limit through every ServerConfigBuilder setter and server builder; every return path of response::too_large and from_template (HTTP status in 400..599)")
 EXPLANATION = ("Symbolic execution of the rustc MIR of the async bodies that configure the WebSocket frame reader and the HTTP body reader: at each call that "
                "bounds an incoming message the operand term must equal zext(max_request_body_size) under every path condition (z3, cvc5 cross-check); "
-               "a model is a concrete pair of limits and is replayed against a real server over TCP before it is reported. An oversize WebSocket message is answered -32007 once and the loop goes on; the configured limit survives every builder step.")
+               "a model is a concrete pair of limits and is replayed against a real server over TCP before it is reported. An oversize WebSocket message is answered -32007 once and the loop goes on; the configured limit survives every builder step. The response built for an oversized HTTP body carries an error status (StatusCode constant numbered from the http crate's own table).")
 TRUSTED = ["rustc MIR dump (nightly) reflects the compiled code", "z3 / cvc5", "soketto enforces its own max_message_size; http_body_util::Limited enforces its limit",
            "Clone::clone / IntoFuture / Pin::new_unchecked identity contracts (coverage.models)"]
 OUTSIDE = ["soketto's and hyper's own enforcement", "frames above soketto's hard 256 MiB frame limit", "which HTTP error status an oversized chunked body gets (500 vs 413 is not fixed by the statement)"]
